@@ -48,7 +48,7 @@ def items_for(tier):
     names = list(coll.pool_messages())
     L = 3 if tier == 'quick' else 4
     for n in range(0, L + 1):
-        for seq in itertools.permutations(names[:6] if tier == 'quick' else names[:9], n):
+        for seq in itertools.permutations(names[:7] if tier == 'quick' else names[:10], n):
             items.append(('coll', seq))
     K = 5 if tier == 'quick' else 7
     for k in range(0, K + 1):
